@@ -77,7 +77,15 @@ func c18Addr(c *harness.Check, cs addrCase) string {
 			prefix = ""
 		}
 		for p, e := range cs.Tree {
-			if e.Kind != "" && e.Kind != tree.File {
+			if e.Kind == tree.Symlink {
+				// resolve a link to a regular file of the tree
+				target := path.Join(path.Dir(p), e.Content)
+				te, ok := cs.Tree[target]
+				if !ok || (te.Kind != "" && te.Kind != tree.File) {
+					continue
+				}
+				e = te
+			} else if e.Kind != "" && e.Kind != tree.File {
 				continue
 			}
 			if !strings.HasPrefix(p, prefix) || !strings.HasSuffix(p, cs.Ext) {
@@ -195,6 +203,11 @@ func TestC18_Addressing(t *testing.T) {
 			}
 			tr[realDir+"/"+sub+name] = tree.Entry{Content: rapid.SampledFrom([]string{"{{ garbage", "@if(", "decoy", "{{ 1 + }}", "\x00\xff"}).Draw(rt, "garbage")}
 			decoy = true
+		}
+		if rapid.IntRange(0, 3).Draw(rt, "symlink") == 0 {
+			// a symbolic link to a regular file is a file of the directory like any other
+			tr[realDir+"/target"+ext] = tree.Entry{Content: "FILE:target"}
+			tr[realDir+"/sub/alias"+ext] = tree.Entry{Kind: tree.Symlink, Content: "../target" + ext}
 		}
 		if rapid.Bool().Draw(rt, "doubleExt") {
 			tr[realDir+"/dbl"+ext+ext] = tree.Entry{Content: "FILE:dbl" + ext}
